@@ -369,11 +369,38 @@ class SyncManager(Runnable):
         sync.get_latest()
         return False
 
+    def _left_sync(self, sync: SyncEntry, side: int) -> bool:
+        """True if sync[side] is a live object whose path no longer translates: it was moved out of the sync root (or
+        into a folder the application's translate declines), so it is no longer the peer of the other side's object."""
+        state = sync[side]
+        if not (state.oid and state.path and state.exists == EXISTS):
+            return False
+        return not self.translate(OTHER_SIDE[side], state.path)
+
+    def _unlink_peer_that_left_sync(self, sync: SyncEntry) -> bool:
+        """
+        Root confinement: a change must never be written by id to (or rename, delete, conflict-rename) a peer that has
+        been moved out of the sync root.  If the side that stayed has a change of its own to propagate, split the entry:
+        the object that left is then discarded as irrelevant and the other one syncs as a new object.  Without such a
+        change the move-out is handled as usual (embrace_change deletes the peer).
+        """
+        if not (sync[LOCAL].oid and sync[REMOTE].oid) or sync.is_discarded:
+            return False
+        for side in (LOCAL, REMOTE):
+            if self._left_sync(sync, OTHER_SIDE[side]) and sync[side].needs_sync():
+                log.info("%s no longer translates, unlinking %s", sync[OTHER_SIDE[side]].path, sync)
+                self.state.split(sync)
+                return True
+        return False
+
     def sync(self, sync: SyncEntry, want_raise: bool = False) -> bool:
         # pylint: disable=too-many-branches, too-many-statements, too-many-locals
         """
         Called on each changed entry.
         """
+        if self._unlink_peer_that_left_sync(sync):
+            return False
+
         if sync.hash_conflict():
             log.debug("handle hash conflict")
             self.handle_hash_conflict(sync)
